@@ -131,6 +131,16 @@ def writer_state(w):
     return [dict(f) for f in st], prev
 
 
+def same_trace(model_resp, impl_res):
+    """the model's write trace, with the private-state fields dropped when the implementation's
+    state could not be observed (`len/?/?`): results and stream lengths are still compared"""
+    import re
+    if '/?/?' not in impl_res:
+        return model_resp
+    return ' '.join(re.sub(r'^([a-z]+/\d+)/.*$', r'\1/?/?', t) if '/' in t and not t.startswith('out=') else t
+                    for t in model_resp.split(' '))
+
+
 def wstate(w, stream):
     ws = writer_state(w)
     if ws is None:
